@@ -949,3 +949,21 @@ def _containers(lc):
                   S.conforms_def(ct, "ListSchema", R, v), inp, {"cls": "ListSchema"}, text="list % v accepts v when v conforms")
     lc.oblige("list:cases-exhaustive", hyp, z3.Or(*[c_ for _, c_ in cases]), inp, {"cls": "ListSchema"},
               text="the six forms of a list schema cover every reachable list schema")
+
+
+# ----------------------------------------------------------------------------- the public entry point
+@contract("d42/substitution/__init__.py", "substitute", props=("C04", "C05", "C12", "C07", "C16", "C17"), group="substitutor")
+def _substitute_entry(c):
+    """substitute(schema, value, **kwargs) (also `schema % value`: Schema.__override__('__mod__', substitute)) is the
+    member dispatch with the module's Substitutor: the value and the kwargs are handed on unchanged"""
+    ct = c.ct
+    Sx = c.sym("schema")
+    v = c.sym("value")
+    kw = c.kwargs()
+    c.requires(S.is_schema(ct, Sx), "is-schema")
+    c.requires(z3.And(S.wf(Sx), S.reach(Sx)), "wf")
+    c.paths()
+    c.raises("SubstitutionError", props=("C12",))
+    c.raises_when("SubstitutionError", subraises(Sx, v, kw))
+    c.reproducible()
+    c.ensures("result-of-the-dispatch", lambda r, post: r == subres(Sx, v, kw), ("C04", "C05", "C12", "C16"))
